@@ -8,9 +8,13 @@ import Abasic.Tokenizer
   here for the blank-skipping primitive, the keyword matcher and the keyword
   table (`chomp_keyword`, `chomp_any_keyword`), the operator matcher, plus
   insensitivity to a leading blank of the whole main loop and to letter case in
-  keywords.  The remaining matchers (number, identifier) and the lift to whole
-  lines with the protected-region side condition are listed under `open` in
-  tools/props.py and rest on the correspondence slice and oracle for now.
+  keywords.  Continued in C12More.lean (number and identifier matchers, one
+  `nextToken` step, the main loop and whole lines: a line whose tokens are all
+  keywords / numbers / identifiers tokenizes to the same tokens with blanks
+  inserted or removed anywhere), C12Case.lean (the same for letter case) and
+  C12Fuel.lean (fuel is never the limit; the iff form).  Still open (see
+  tools/props.py): lines that also contain string / REM / DATA tokens, where the
+  edit must avoid the protected text, and blanks around DATA items.
 -/
 namespace Abasic.Props.C12
 open Abasic
